@@ -43,8 +43,12 @@ RULE = (
     "(temporary context per worker) x failing runs (exception injected in source compute, plugin compute, plugin "
     "setup, or data not available under forbid_creation_of='*') with and without ignore_errors x schedule (random "
     "with persistence, PCT with <=3 change points over line-level steps, explicit choice list, targeted preemption at "
-    "the n-th line executed inside a named plugin-resolution function), all drawn from Hypothesis; sub-check "
-    "realthreads (thorough only) enumerates a grid of configurations on real OS threads with a 1 us switch interval. "
+    "the n-th line executed inside a named plugin-resolution function, preemption restricted to the lines of the "
+    "cache/registry functions with a switch probability or with generated quanta), all drawn from Hypothesis "
+    "(sub-checks single / multi); sub-check coldrace draws only the shapes in which >=2 workers fill the plugin "
+    "cache of ONE shared context (3-5 runs, 2-4 workers, target(s) with dependencies, cold cache, fine-grained "
+    "schedules); sub-check realthreads (thorough only) enumerates a grid of 240 configurations on real OS threads "
+    "with a 1 us switch interval. "
     "Non-trivial = >=2 workers and >=3 runs and >=1 preemption at a line inside the context's plugin-resolution code. "
     "distinct = distinct descriptor hashes."
 )
@@ -786,7 +790,7 @@ def verdict(E, seq, ctx, path, res, exc, S=None, worker_errors=()):
 def classes_of(d, rec=None, S=None):
     cl = [d["api"], f"runs{len(d['runs'])}", f"workers{d['workers']}", "warm:" + d["warm"],
           "storage" if d["storage"] else "no_storage", "targets%d" % len(d["targets"]),
-          "policy:" + d["policy"]["kind"] if "policy" in d else "real_threads"]
+          ("policy:" + d["policy"]["kind"] + d["policy"].get("mode", "")) if "policy" in d else "real_threads"]
     if d["fail"]:
         cl.append("fail+ignore" if d["ignore_errors"] else "fail+raise")
         cl += ["fail@" + s.split(":")[0] for s in set(d["fail"].values())]
@@ -921,9 +925,11 @@ def _sig_f1530(sub, desc, bucket, message):
 
 
 SUBCHECKS = [
-    SubCheck("single", run_case, strategy=lambda: st_case(multi=False), quick=400, thorough=14000, min_per_shard=5),
-    SubCheck("multi", run_case, strategy=lambda: st_case(multi=True), quick=240, thorough=8000, min_per_shard=5),
+    SubCheck("single", run_case, strategy=lambda: st_case(multi=False), quick=400, thorough=14000, min_per_shard=5,
+             required_classes=("preempted_in_resolution", "failing_runs_omitted", "exception_propagated")),
+    SubCheck("multi", run_case, strategy=lambda: st_case(multi=True), quick=240, thorough=8000, min_per_shard=5,
+             required_classes=("preempted_in_resolution",)),
     SubCheck("coldrace", run_case, strategy=lambda: st_case(multi=False, racy=True), quick=240, thorough=8000,
-             min_per_shard=5),
+             min_per_shard=5, required_classes=("preempt@_plugins_to_cache",)),
     SubCheck("realthreads", run_real, enumerate=enum_real),
 ]
